@@ -38,7 +38,7 @@ vlib.standard_check({
                      "harness/c01.cpp + designgen.h + Driver/C01.lean", "gatery's ReferenceSimulator as the semantics of both circuits (its own correctness is C03/C04/C08)"],
     "level_text": "Lean theorems: congruence (one locally sound node replacement preserves F on every node value of any netlist; any number of "
                   "replacements preserves identity on defined runs and compatibility), lifted to clocked netlists for stimuli of any length (induction over cycles), "
-                  "value-level soundness of the rewrites of seven optimisation passes for all four-state values; F is evaluated on implementation pin traces of generated designs at every pass boundary and at the end.",
+                  "value-level soundness of the rewrites of the optimisation passes of Circuit::optimizeSubnet plus insertConstUndefinedNodes/disconnectZeroBitConnections for all four-state values; F is evaluated on implementation pin traces of generated designs at every pass boundary and at the end.",
     "extra_cov": lambda t: {"netlists_rechecked": t.get("netlists_rechecked", 0), "node_values_rechecked_with_lean_semantics": t.get("node_values_rechecked_with_lean_semantics", 0),
                             "register_transitions_rechecked_with_lean_semantics": t.get("register_transitions_rechecked_with_lean_semantics", 0),
                             "register_transitions_with_enable": t.get("register_transitions_with_enable", 0),
